@@ -135,7 +135,7 @@ void h_actRight(void)
 
 /* Cross-check of the ghost formulation against the closed form, without any contract: for monomials of length <= 4 over <= 8 modes the
  * extracted function (all loops unwound) returns exactly the right-to-left fold of jw_apply over the factors. */
-//@harness h_actRight_closed enforce=none loops=0 unwind=9 props=C05 bounded=monomial_length<=4,modes<=8 min_obl=928 reach=2 timeout=300
+//@harness h_actRight_closed enforce=none loops=0 unwind=9 props=C05 bounded=monomial_length<=4,modes<=8 min_obl=939 reach=2 timeout=300
 void h_actRight_closed(void)
 {
   CompIdx e[4]; Monomial m; Bitset ket;
@@ -295,6 +295,8 @@ void h_Sz_terms(void)
   REACH("exit");
 }
 
+/* each of the two sums counts occupied modes among the indices read: between 0 and the number of indices */
+#define SPEC_IN_RANGE(self) (0 <= g_spec_up && g_spec_up <= (long)(self)->SpinUpIndices.size && 0 <= g_spec_down && g_spec_down <= (long)(self)->SpinDownIndices.size)
 //@function Pomerol::OperatorPresets::Sz::getMatrixElement(boost::dynamic_bitset<unsigned long, std::allocator<unsigned long> > const&) const as Sz_getMatrixElement
 //@contract
 __CPROVER_requires(__CPROVER_is_fresh(self, sizeof(*self)) && Bitset_wf(ket) && UVec_wf(&self->SpinUpIndices) && UVec_wf(&self->SpinDownIndices))
@@ -307,7 +309,7 @@ __CPROVER_assigns(g_next_up, g_next_down, g_spec_up, g_spec_down)
 /* every up and every down index contributed once; the result is 1/2 * (integer 2*S_z of the generic polynomial)
  * -- half-integers are exact in binary floating point */
 __CPROVER_ensures(g_next_up == self->SpinUpIndices.size && g_next_down == self->SpinDownIndices.size)
-__CPROVER_ensures(__CPROVER_return_value == 0.5 * (double)(g_spec_up - g_spec_down))
+__CPROVER_ensures(SPEC_IN_RANGE(self) && __CPROVER_return_value == 0.5 * (double)(g_spec_up - g_spec_down))
 //@loop 1
 __CPROVER_assigns(it_up.pos, up_value, g_next_up, g_spec_up)
 __CPROVER_loop_invariant(it_up.v == &self->SpinUpIndices && it_up.pos <= self->SpinUpIndices.size && it_up.pos == g_next_up)
@@ -319,7 +321,7 @@ __CPROVER_loop_invariant(it_down.v == &self->SpinDownIndices && it_down.pos <= s
 __CPROVER_loop_invariant(0 <= down_value && (unsigned long)down_value <= it_down.pos && (long)down_value == g_spec_down)
 __CPROVER_decreases(self->SpinDownIndices.size - it_down.pos)
 //@end
-//@harness h_Sz_melem enforce=Sz_getMatrixElement props=C05 defs=-DVERIF_FP_IEEE min_obl=388 reach=3 timeout=120
+//@harness h_Sz_melem enforce=Sz_getMatrixElement props=C05 defs=-DVERIF_FP_IEEE min_obl=400 reach=3 timeout=120
 void h_Sz_melem(void)
 {
   struct OperatorPresets_Sz *p; Bitset ket;
@@ -327,6 +329,55 @@ void h_Sz_melem(void)
   g_next_up = 0; g_next_down = 0; g_spec_up = 0; g_spec_down = 0;
   double r = Sz_getMatrixElement(p, ket);
   REACH("exit");
+}
+
+/* ---- two-argument forms  <bra| N |ket>, <bra| S_z |ket>  (OperatorPresets.h: both operators are diagonal in the Fock basis --
+ * "actRight" returns the single state |ket> --, so the matrix element is 0 unless bra == ket, and then it is the diagonal value
+ * proved above; the one-argument versions are used through their CONTRACTS).  Both states are states of the operator's Fock space.
+ * For Sz the diagonal value is stated through the ghost of the one-argument contract: when bra == ket every up and down index was
+ * read once and the result is 1/2*(g_spec_up - g_spec_down); when bra != ket the result is +0 and nothing is read. */
+//@rename op_ne_Bitset_Bitset => Bitset_ne_p
+static inline _Bool Bitset_ne_p(const Bitset *a, const Bitset *b) { return op_ne_Bitset_Bitset(*a, *b); }
+//@rename op_eq_Bitset_Bitset => Bitset_eq_p
+static inline _Bool Bitset_eq_p(const Bitset *a, const Bitset *b) { return op_eq_Bitset_Bitset(*a, *b); }
+//@rename OperatorPresets_N_getMatrixElement/1 => N_getMatrixElement
+//@rename OperatorPresets_Sz_getMatrixElement/1 => Sz_getMatrixElement
+#define SAME_STATE(a, b) ((a).size == (b).size && (a).w == (b).w)
+//@function Pomerol::OperatorPresets::N::getMatrixElement(boost::dynamic_bitset<unsigned long, std::allocator<unsigned long> > const&, boost::dynamic_bitset<unsigned long, std::allocator<unsigned long> > const&) const as N_getMatrixElement2
+//@contract
+__CPROVER_requires(__CPROVER_is_fresh(self, sizeof(*self)) && Bitset_wf(bra) && Bitset_wf(ket))
+__CPROVER_requires(ket.size == self->Nmodes && bra.size == self->Nmodes)
+__CPROVER_assigns()
+__CPROVER_ensures(SAME_STATE(bra, ket) ? __CPROVER_return_value == (double)diag_N(self->Nmodes, ket)
+                                       : *(unsigned long *)&__CPROVER_return_value == 0UL)
+//@end
+//@harness h_N_melem2 enforce=N_getMatrixElement2 replace=N_getMatrixElement props=C05 unwind=65 min_obl=81 reach=2 timeout=120
+void h_N_melem2(void)
+{
+  struct OperatorPresets_N *p; Bitset bra, ket;
+  double r = N_getMatrixElement2(p, bra, ket);
+  if (SAME_STATE(bra, ket)) REACH("diagonal"); else REACH("off_diagonal");
+}
+
+//@function Pomerol::OperatorPresets::Sz::getMatrixElement(boost::dynamic_bitset<unsigned long, std::allocator<unsigned long> > const&, boost::dynamic_bitset<unsigned long, std::allocator<unsigned long> > const&) const as Sz_getMatrixElement2
+//@contract
+__CPROVER_requires(__CPROVER_is_fresh(self, sizeof(*self)) && Bitset_wf(bra) && Bitset_wf(ket) && UVec_wf(&self->SpinUpIndices) && UVec_wf(&self->SpinDownIndices))
+__CPROVER_requires(bra.size == ket.size && self->SpinUpIndices.bound <= ket.size && self->SpinDownIndices.bound <= ket.size)
+__CPROVER_requires(g_up == &self->SpinUpIndices && g_down == &self->SpinDownIndices && g_ket.w == ket.w && g_ket.size == ket.size)
+__CPROVER_requires(g_next_up == 0 && g_next_down == 0 && g_spec_up == 0 && g_spec_down == 0)
+__CPROVER_assigns(g_next_up, g_next_down, g_spec_up, g_spec_down)
+__CPROVER_ensures(SAME_STATE(bra, ket)
+    ? (g_next_up == self->SpinUpIndices.size && g_next_down == self->SpinDownIndices.size && SPEC_IN_RANGE(self) && __CPROVER_return_value == 0.5 * (double)(g_spec_up - g_spec_down))
+    : (*(unsigned long *)&__CPROVER_return_value == 0UL && g_next_up == 0 && g_next_down == 0))
+//@end
+//@harness h_Sz_melem2 enforce=Sz_getMatrixElement2 replace=Sz_getMatrixElement props=C05 defs=-DVERIF_FP_IEEE min_obl=164 reach=2 timeout=120
+void h_Sz_melem2(void)
+{
+  struct OperatorPresets_Sz *p; Bitset bra, ket;
+  g_up = nondet_ptr(); g_down = nondet_ptr(); g_ket.w = nondet_ulong(); g_ket.size = nondet_ulong();
+  g_next_up = 0; g_next_down = 0; g_spec_up = 0; g_spec_down = 0;
+  double r = Sz_getMatrixElement2(p, bra, ket);
+  if (SAME_STATE(bra, ket)) REACH("diagonal"); else REACH("off_diagonal");
 }
 
 /* =====================================================================================================================
@@ -543,7 +594,7 @@ static inline void MonoMap_clear(MonoMap *m) { m->has = 0; m->size = 0; }
 /* erase_zero_monomial(map, it): the entry `it` points to is erased iff its coefficient is below 100 eps in magnitude; no
  * other entry changes.  Checked directly (no contract: an iterator argument that points INTO the map argument cannot be
  * described by is_fresh pre-conditions); the function is inlined into its callers below. */
-//@harness h_erase_zero enforce=none loops=0 props=C05 min_obl=925 reach=5 timeout=120
+//@harness h_erase_zero enforce=none loops=0 props=C05 min_obl=937 reach=5 timeout=120
 void h_erase_zero(void)
 {
   MonoMap m; MonoIt it;
@@ -745,6 +796,10 @@ void h_Operator_mulassign_d(void)
  *  Sz::getMatrixElement: up-down -> up+down              Sz_getMatrixElement.postcondition.2
  *  Sz::getMatrixElement: down loop reads *it_up          Sz_getMatrixElement.postcondition.1/.2, UVecIt_mul.assertion.1/.2
  *  Sz::getMatrixElement: it_down over SpinUpIndices      UVecIt_mul.assertion.1/.2
+ *  N::getMatrixElement(bra,ket): guard bra.count()!=ket.count()   N_getMatrixElement2.postcondition.1
+ *  Sz::getMatrixElement(bra,ket): guard bra.count()!=ket.count()  Sz_getMatrixElement2.postcondition.1
+ *  Sz::getMatrixElement(bra,ket): bra==ket ? 0 : ...              Sz_getMatrixElement2.postcondition.1
+ *  N::getMatrixElement(bra,ket): getMatrixElement(bra)            passes (equivalent: reached only when bra == ket)
  *  operator==(entry): pre-fix 8a738a7^                   equal_factors.precondition.2 (read past the shorter monomial), MonoEntry_eq.postcondition.1 (prefix equality)
  *  operator==(entry): `-` -> `+` in the tolerance test   MonoEntry_eq.postcondition.1/.2
  *  operator==(entry): `==` -> `<=` on the sizes          MonoEntry_eq.postcondition.1
